@@ -186,7 +186,9 @@ fn cmd_batch(args: &[String]) {
     let wall_budget = arg_u64(args, "--wall-s", 0);
     let keep_digests = args.iter().any(|a| a == "--digests");
     let progress = arg(args, "--progress").map(|s| s.to_string());
-    std::panic::set_hook(Box::new(|_| {}));
+    if std::env::var("CELSIM_PANIC_MSG").is_err() {
+        std::panic::set_hook(Box::new(|_| {}));
+    }
     let t0 = std::time::Instant::now();
     let mut agg = Agg::default();
     let mut sample: Option<serde_json::Value> = None;
